@@ -4,42 +4,69 @@ import Uquic.Model.Cong.Glue
 import Uquic.Spec.CongMon
 
 /-!
-Oracle of the `congh` driver (property C20, glue): the real sentPacketHandler (ECN on or off,
-application-data space) with a recording proxy in front of its congestion controller.
+Oracle of the `congh` driver (property C20, glue): the real sentPacketHandler (client or server, ECN
+on or off, all three packet number spaces) with a recording proxy in front of its congestion controller.
 
-  init <mds> <ecn>                                   => ok
-  send <t> <size> <ae>                               => pn=<pn> e=<ecn codepoint>     (PopPacketNumber, ECNMode, SentPacket)
-  ack <t> <delayNs> <ect0> <ect1> <ce> r=<lo-hi;…>   => ok|err                         (ReceivedAck, 1-RTT)
-  timeout <t>                                        => ok|err|skip                    (OnLossDetectionTimeout if armed and due)
-  mds <m>                                            => ok                             (SetMaxDatagramSize)
-suffix: ` | w=<cwnd> bif=<bytesInFlight> ss=<0|1> calls=<c,c,…|-> lost=<pn;…|-> trk=<pn;…|-> r=<latest>,<min>,<srtt>`
-calls: S:t:pn:bytes:ae  X  C:pn:bytes:prior  A:pn:bytes:prior  M:m  — what the handler called on the controller.
-Environment taken from the implementation's output: pn / ECN codepoint of a send, the lost packets
-(OnLost callbacks), the tracked set, the RTT triple, whether a CE event was raised at all.
+  init <mds> <ecn> <client> <confirmed> <initial pn>       => ok
+  send <lvl> <t> <size> <ae> <kind>                        => pn=<pn> e=<ecn codepoint> | skip   (PopPacketNumber, ECNMode, SentPacket)
+       lvl: i Initial, h Handshake, z 0-RTT, a 1-RTT;  kind: 0 ordinary, 1 Path MTU probe, 2 path probe
+  ack <lvl> <t> <delayNs> <ect0> <ect1> <ce> r=<lo-hi;…>   => ok|err|skip                        (ReceivedAck)
+  timeout <t>                                              => ok|err|skip                        (OnLossDetectionTimeout if armed and due)
+  mds <m>                                                  => ok                                 (SetMaxDatagramSize)
+  migrate <t> <mds>                                        => ok|skip                            (MigratedPath)
+  drop <i|h|z> <t>                                         => ok|skip                            (DropPackets)
+  retry <t>                                                => ok|skip                            (ResetForRetry)
+  qprobe <lvl>                                             => 1|0|skip                           (QueueProbePacket)
+  mode <t>                                                 => any|pacing|ack|none|pto-…          (SendMode)
+suffix: ` | w=<cwnd> bif=<bytesInFlight> ss=<0|1> calls=<c,c,…|-> lost=<key;…|-> trk=<key;…|-> pp=<pn;…|-> ph=<pn;…|-> r=<latest>,<min>,<srtt>`
+key = level letter of the space (i, h, a) and packet number.
+calls: S:t:pn:bytes:ae:bif  X  C:pn:bytes:prior  A:pn:bytes:prior  M:m  — what the handler called on the controller.
+Environment taken from the implementation's output: pn / ECN codepoint of a send, which packets left
+the histories without being acknowledged (loss detection), the outstanding path probes and their
+placeholders, the RTT triple, whether a CE event was raised at all.  PREDICTED by the model: every
+call on the controller, the window, the bytes in flight, the `OnLost` callbacks (`lost=`), the tracked set.
 -/
 
 open Uquic.Oracle Uquic.Model.Cong Uquic.Spec.CongMon
 
 structure SentRec where
+  sp : Nat
   pn : Int
   size : Nat
   ae : Bool
+  zero : Bool
+  mtu : Bool
+  probe : Bool
+  /-- not yet acknowledged, reported lost or written off -/
+  live : Bool := true
 
 structure HGhost where
   mds : Nat := 1252
   ecn : Bool := false
   sent : List SentRec := []
-  acked : List Int := []
-  lost : List Int := []
-  largestAE : Int := -1     -- largest ack-eliciting packet number handed to the handler
+  /-- the last ack-eliciting packet reported to the controller (its `largestSentPacketNumber`) -/
+  lastAE : Int := -1
+  lastAESp : Nat := 2
   /-- mirror of the ECN tracker's inputs: largest acknowledged and CE count of the last ACK frame that
       newly acknowledged something and raised the largest acknowledged -/
   gLargestAcked : Int := -1
   gCE : Nat := 0
-  /-- the tracked set the implementation printed on the previous line -/
-  prevTrk : List Int := []
-  markPN : Int := -1        -- largest ack-eliciting packet sent when the window last went down
+  /-- what the implementation printed on the previous line -/
+  prevTrk : List (Nat × Int) := []
+  prevPP : List Int := []
+  prevPH : List Int := []
+  prevSS : Bool := true
+  /-- `lastAE` when a congestion event above the previous mark was last reported -/
+  markPN : Int := -1
   lastW : Option Nat := none
+
+/-- the bytes really outstanding: ack-eliciting packets (no path probes) handed to the handler and
+neither acknowledged, nor reported lost, nor written off by a reset -/
+def HGhost.outstanding (h : HGhost) : Nat :=
+  h.sent.foldl (fun a r => if r.live && r.ae && !r.probe then a + r.size else a) 0
+
+def HGhost.kill (h : HGhost) (f : SentRec → Bool) : HGhost :=
+  { h with sent := h.sent.map fun r => if f r then { r with live := false } else r }
 
 structure St where
   g : Glue := { s := Sender.new 1252 Rtt.default }
@@ -52,6 +79,18 @@ def fieldOf (impl : String) (key : String) : Option String :=
 
 def parseInts (s : String) : List Int :=
   if s == "-" || s == "" then [] else (s.splitOn ";").filterMap (·.toInt?)
+
+def spOfLetter (c : String) : Option Nat :=
+  if c == "i" then some 0 else if c == "h" then some 1 else if c == "a" || c == "z" then some 2 else none
+
+def letterOf (sp : Nat) : String := if sp == 0 then "i" else if sp == 1 then "h" else "a"
+
+def parseKeys (s : String) : List (Nat × Int) :=
+  if s == "-" || s == "" then [] else
+  (s.splitOn ";").filterMap fun k =>
+    match spOfLetter (k.take 1).toString, (k.drop 1).toString.toInt? with
+    | some sp, some pn => some (sp, pn)
+    | _, _ => none
 
 def parseRanges (s : String) : List (Int × Int) :=
   if s == "-" || s == "" then [] else
@@ -72,16 +111,28 @@ def parseRtt (impl : String) : Option Rtt :=
     | _ => none
   | none => none
 
-def fmtCall : Call → String
-  | .sent t pn b ae => s!"S:{t}:{pn}:{b}:{b2s ae}"
+/-- `nb` = the handler's counter when `OnPacketSent` is called -/
+def fmtCall (nb : Nat) : Call → String
+  | .sent t pn b ae => s!"S:{t}:{pn}:{b}:{b2s ae}:{nb}"
   | .exitSS => "X"
   | .cong pn b p => s!"C:{pn}:{b}:{p}"
   | .acked pn b p => s!"A:{pn}:{b}:{p}"
   | .mds m => s!"M:{m}"
 
-def fmtCalls (cs : List Call) : String := if cs.isEmpty then "-" else ",".intercalate (cs.map fmtCall)
+def fmtCalls (nb : Nat) (cs : List Call) : String := if cs.isEmpty then "-" else ",".intercalate (cs.map (fmtCall nb))
 
 def fmtInts (l : List Int) : String := if l.isEmpty then "-" else ";".intercalate (l.map toString)
+
+def keyLe (a b : Nat × Int) : Bool := a.1 < b.1 || (a.1 == b.1 && a.2 ≤ b.2)
+
+def insertKey (k : Nat × Int) : List (Nat × Int) → List (Nat × Int)
+  | [] => [k]
+  | x :: r => if keyLe k x then k :: x :: r else x :: insertKey k r
+
+def sortKeys (l : List (Nat × Int)) : List (Nat × Int) := l.foldl (fun acc k => insertKey k acc) []
+
+def fmtKeys (l : List (Nat × Int)) : String :=
+  if l.isEmpty then "-" else ";".intercalate ((sortKeys l).map fun k => letterOf k.1 ++ toString k.2)
 
 /-- parse the implementation's recorded calls -/
 def parseCalls (s : String) : List (String × List Int) :=
@@ -91,75 +142,160 @@ def parseCalls (s : String) : List (String × List Int) :=
     | k :: rest => (k, rest.filterMap (·.toInt?))
     | [] => ("?", [])
 
+/-- `lost` = the `OnLost` callbacks the model predicts; `ph` is environment and echoed -/
+def suffix (g : Glue) (calls : List Call) (lost : List (Nat × Int)) (ph : List Int) (r : Rtt) : String :=
+  let trk := (g.out.filter (!·.probe)).map (·.key)
+  let pp := (g.out.filter (·.probe)).map (·.pn)
+  s!" | w={g.s.cwnd} bif={g.bytesInFlight} ss={b2s g.s.inSlowStart} calls={fmtCalls g.bytesInFlight calls} lost={fmtKeys lost} trk={fmtKeys trk} pp={fmtInts pp} ph={fmtInts ph} r={r.latest},{r.min},{r.srtt}"
 
-
-def suffix (g : Glue) (calls : List Call) (lost tracked : List Int) (r : Rtt) : String :=
-  s!" | w={g.s.cwnd} bif={g.bytesInFlight} ss={b2s g.s.inSlowStart} calls={fmtCalls calls} lost={fmtInts lost} trk={fmtInts tracked} r={r.latest},{r.min},{r.srtt}"
-
-/-- monitors on the window as seen through the handler -/
-def windowMonitors (h : HGhost) (kind : String) (w' : Nat) (trigger : Bool) : HGhost × List Fail :=
+/-- monitors on the window as seen through the handler.  `events` = the packet numbers a congestion
+event may be reported for (lost outstanding packets; the largest acknowledged when the CE count rose).
+The ghost mark never exceeds the controller's cut-back mark: it moves to the last ack-eliciting packet
+sent when the window visibly went down; when a reduction was possible but not visible (window at its
+minimum, ECN validation failed, …) it can only move down (packet numbers of different spaces mix). -/
+def windowMonitors (h : HGhost) (kind : String) (w' : Nat) (events : List Int) : HGhost × List Fail :=
   let bounds : List Fail :=
     (if w' < 2 * h.mds then [("h_cwnd_lower_bound", "-", s!"cwnd={w'} < 2*{h.mds}")] else []) ++
     (if w' > maxCwndPackets * h.mds + h.mds then [("h_cwnd_upper_bound", "-", s!"cwnd={w'} mds={h.mds}")] else [])
+  let trigger := events.any fun pn => decide (pn > h.markPN)
   match h.lastW with
-  | none => ({ h with lastW := some w' }, bounds)
+  | none => ({ h with lastW := some w', markPN := if trigger then Min.min h.markPN h.lastAE else h.markPN }, bounds)
   | some w =>
     let f : List Fail :=
       (if w' < w ∧ !trigger then
-        [("h_shrinks_once_per_window", "-", s!"cwnd {w} -> {w'} on {kind}: no packet above {h.markPN} (largest ack-eliciting sent at the previous reduction) was lost or CE-marked")]
+        [("h_shrinks_once_per_window", "-", s!"cwnd {w} -> {w'} on {kind}: no packet above {h.markPN} (last ack-eliciting packet sent at the previous reduction) was lost or CE-marked")]
        else []) ++
       (if w' > w ∧ kind ≠ "ack" ∧ kind ≠ "mds" then [("h_growth_without_ack", "-", s!"cwnd {w} -> {w'} on {kind}")] else [])
-    let h := if w' < w then { h with markPN := h.largestAE } else h
-    ({ h with lastW := some w' }, bounds ++ f)
+    let mark := if w' < w then h.lastAE else if trigger then Min.min h.markPN h.lastAE else h.markPN
+    ({ h with lastW := some w', markPN := mark }, bounds ++ f)
 
-def setTrk (p : St × StepOut) (trk : List Int) : St × StepOut :=
-  ({ p.1 with h := { p.1.h with prevTrk := trk } }, p.2)
+/-- "shrinks at most once per window of packets": one ACK frame / one loss-timer expiry reports losses of
+ONE window, so the window after it is never below a single Reno reduction of the window before it.
+Known finding `cross_space_packet_numbers`: the controller's once-per-window guard compares packet
+numbers, and the handler reports packets of all three packet number spaces with their own numbers; when
+the last ack-eliciting packet sent belongs to another space and has a smaller number than the lost
+packets, every lost packet of the frame cuts the window again. -/
+def oneReductionMonitor (h0 : HGhost) (kind : String) (w0 : Option Nat) (w' : Option Nat) (evSp : Nat) (events : List Int) : List Fail :=
+  match w0, w' with
+  | some w, some w' =>
+    if w' < renoCut w then
+      let cross := h0.lastAESp != evSp && events.any fun pn => decide (pn > h0.lastAE)
+      [("h_one_reduction_per_ack", if cross then "cross_space_packet_numbers" else "-",
+        s!"cwnd {w} -> {w'} on one {kind}: below a single reduction ({renoCut w}); last ack-eliciting packet sent: {letterOf h0.lastAESp}{h0.lastAE}, congestion events for {letterOf evSp}{fmtInts events}")]
+    else []
+  | _, _ => []
+
+/-- the handler's counter against the bytes really outstanding -/
+def bifMonitor (h : HGhost) (impl : String) (kind : String) : List Fail :=
+  match (fieldOf impl "bif=").map natOf with
+  | some b => if b ≠ h.outstanding then
+      [("h_bytes_in_flight", "-", s!"after {kind} the handler counts {b} bytes in flight; sent and neither acknowledged, lost nor written off: {h.outstanding}")]
+    else []
+  | none => []
+
+/-- packets that left the tracked set other than by this ACK (environment: loss detection) -/
+def goneOf (g : Glue) (newly : Pkt → Bool) (trk : List (Nat × Int)) (pp : List Int) : List (Nat × Int) :=
+  (g.out.filter fun p => !newly p && (if p.probe then !pp.contains p.pn else !trk.contains p.key)).map (·.key)
+
+/-- is the lost packet one whose loss is reported to the controller -/
+def reportedLoss (h : HGhost) (k : Nat × Int) : Bool :=
+  h.sent.any fun r => r.sp == k.1 && r.pn == k.2 && r.ae && !r.mtu && !r.probe
+
+def lossCallMonitor (h : HGhost) (implLost : List (Nat × Int)) (c : String × List Int) : Option Fail :=
+  let pn := c.2.getD 0 0
+  let b := c.2.getD 1 0
+  match h.sent.find? (fun r => r.pn == pn && implLost.contains (r.sp, r.pn) && r.live) with
+  | none => some ("glue_loss_event_pn", "-", s!"loss event for packet {pn} which was not declared lost, or was resolved before ({fmtKeys implLost})")
+  | some r =>
+    if r.mtu then some ("glue_mtu_probe_loss_event", "-", s!"the loss of Path MTU probe packet {pn} was reported to the congestion controller")
+    else if r.probe then some ("glue_loss_event_pn", "-", s!"the loss of path probe packet {pn} was reported to the congestion controller")
+    else if !r.ae ∨ (r.size : Int) ≠ b then some ("glue_loss_event_pn", "-", s!"loss event for packet {pn} with {b} bytes: no such ack-eliciting packet was sent")
+    else none
+
+def priorMonitor (prior : Nat) (cs : List (String × List Int)) : List Fail :=
+  cs.filterMap fun c =>
+    if (c.1 == "C" || c.1 == "A") && c.2.getD 2 0 ≠ (prior : Int) then
+      some ("glue_prior_in_flight", "-", s!"{c.1}:{c.2.getD 0 0} reported with priorInFlight={c.2.getD 2 0}; outstanding before the operation: {prior}")
+    else none
+
+def setPrev (p : St × StepOut) (impl : String) : St × StepOut :=
+  ({ p.1 with h := { p.1.h with prevTrk := parseKeys ((fieldOf impl "trk=").getD "-"),
+                                prevPP := parseInts ((fieldOf impl "pp=").getD "-"),
+                                prevPH := parseInts ((fieldOf impl "ph=").getD "-"),
+                                prevSS := (fieldOf impl "ss=").getD "1" == "1" } }, p.2)
 
 def stepCore (st : St) (op impl : String) : St × StepOut :=
   let w := words op
   let implHead := (words impl).headD ""
   let implW := (fieldOf impl "w=").map natOf
   let implCalls := parseCalls ((fieldOf impl "calls=").getD "-")
-  let implLost := parseInts ((fieldOf impl "lost=").getD "-")
-  let implTrk := parseInts ((fieldOf impl "trk=").getD "-")
+  let implLost := parseKeys ((fieldOf impl "lost=").getD "-")
+  let implTrk := parseKeys ((fieldOf impl "trk=").getD "-")
+  let implPP := parseInts ((fieldOf impl "pp=").getD "-")
+  let implPH := parseInts ((fieldOf impl "ph=").getD "-")
   let rtt := (parseRtt impl).getD st.g.s.rtt
   let g0 : Glue := { st.g with s := { st.g.s with rtt := rtt } }
+  let prior := st.h.outstanding
+  -- an operation the driver turned into a no-op
+  let skip (kind : String) : St × StepOut :=
+    let (h, f2) := match implW with | some x => windowMonitors st.h kind x [] | none => (st.h, [])
+    ({ g := g0, h := h }, { model := implHead ++ suffix g0 [] [] implPH rtt, tags := [kind ++ ":" ++ implHead], fails := f2 ++ bifMonitor h impl kind })
   match w with
-  | ["init", m, e] =>
+  | "init" :: m :: e :: _ =>
     let m := natOf m
     let g : Glue := { s := { (Sender.new m Rtt.default) with rtt := rtt } }
     let h : HGhost := { mds := m, ecn := e == "1" }
-    let (h, f) := match implW with | some x => windowMonitors h "init" x true | none => (h, [])
-    ({ g := g, h := h }, { model := "ok" ++ suffix g [] [] [] rtt, tags := ["init"], fails := f })
-  | ["send", t, size, ae] =>
+    let (h, f) := match implW with | some x => windowMonitors h "init" x [] | none => (h, [])
+    ({ g := g, h := h }, { model := "ok" ++ suffix g [] [] [] rtt, tags := ["init"], fails := f ++ bifMonitor h impl "init" })
+  | ["send", lvl, t, size, ae, kind] =>
+    if implHead == "skip" then skip "send" else
     let t := intOf t; let size := natOf size; let ae := ae == "1"
+    let sp := (spOfLetter lvl).getD 2
+    let zero := lvl == "z"; let mtu := kind == "1"; let probe := kind == "2"
     let pn := ((fieldOf impl "pn=").map intOf).getD (st.g.largestSent + 1)
     let e := (fieldOf impl "e=").getD "0"
-    let (g, calls) := g0.send t pn size ae
-    let h := { st.h with sent := st.h.sent ++ [{ pn := pn, size := size, ae := ae }],
-                         largestAE := if ae then Max.max st.h.largestAE pn else st.h.largestAE }
-    -- glue monitor: exactly one OnPacketSent with this packet
-    let f : List Fail := match implCalls with
-      | [("S", [t', pn', b', ae'])] => if t' = t ∧ pn' = pn ∧ b' = size ∧ (ae' = 1) = ae then [] else
-          [("glue_sent_call", "-", s!"OnPacketSent({t'},{pn'},{b'},{ae'}) for packet {pn} size {size}")]
+    let (g, calls) := g0.send t pn size ae sp zero mtu probe
+    let h := { st.h with sent := st.h.sent ++ [{ sp := sp, pn := pn, size := size, ae := ae, zero := zero, mtu := mtu, probe := probe }],
+                         lastAE := if ae && !probe then pn else st.h.lastAE,
+                         lastAESp := if ae && !probe then sp else st.h.lastAESp }
+    -- glue monitor: a path probe is not reported; anything else by exactly one OnPacketSent with this
+    -- packet and the bytes outstanding including it
+    let f : List Fail :=
+      if probe then
+        (if implCalls.isEmpty then [] else [("glue_sent_call", "-", "a path probe packet was reported to the congestion controller: calls=" ++ (fieldOf impl "calls=").getD "-")])
+      else match implCalls with
+      | [("S", [t', pn', b', ae', nb'])] =>
+          (if t' = t ∧ pn' = pn ∧ b' = size ∧ (ae' = 1) = ae then [] else
+            [("glue_sent_call", "-", s!"OnPacketSent({t'},{pn'},{b'},{ae'}) for packet {pn} size {size}")]) ++
+          (if nb' = (h.outstanding : Int) then [] else
+            [("glue_prior_in_flight", "-", s!"OnPacketSent for packet {pn} reported with bytesInFlight={nb'}; outstanding including it: {h.outstanding}")])
       | _ => [("glue_sent_call", "-", "calls=" ++ (fieldOf impl "calls=").getD "-")]
-    let (h, f2) := match implW with | some x => windowMonitors h "send" x false | none => (h, [])
-    let modelText := "pn=" ++ toString pn ++ " e=" ++ e ++ suffix g calls [] implTrk rtt
-    let tags := [(if ae then "send:ae" else "send:ackonly"), "ecn:" ++ e]
-    ({ g := g, h := h }, { model := modelText, tags := tags, fails := f ++ f2 })
-  | ["ack", _t, _d, _e0, _e1, ce, rs] =>
+    let (h, f2) := match implW with | some x => windowMonitors h "send" x [] | none => (h, [])
+    let modelText := "pn=" ++ toString pn ++ " e=" ++ e ++ suffix g calls [] implPH rtt
+    let tags := [(if probe then "send:pathprobe" else if mtu then "send:mtuprobe" else if ae then "send:ae" else "send:ackonly"),
+                 "send:" ++ lvl, "ecn:" ++ e]
+    ({ g := { g with ph := implPH }, h := h }, { model := modelText, tags := tags, fails := f ++ f2 ++ bifMonitor h impl "send" })
+  | ["ack", lvl, _t, _d, _e0, _e1, ce, rs] =>
+    if implHead == "skip" then skip "ack" else
+    let sp := (spOfLetter lvl).getD 2
     let ce := natOf ce
     let ranges := parseRanges (rs.drop 2).toString
     let largest := largestOf ranges
-    if largest > st.g.largestSent ∨ implHead == "err" then
-      let (h, f2) := match implW with | some x => windowMonitors st.h "ack-err" x false | none => (st.h, [])
-      ({ g := g0, h := h }, { model := "err" ++ suffix g0 [] [] implTrk rtt, tags := ["ack:err"], fails := f2 })
+    if (sp == 2 && largest > st.g.largestSent) ∨ implHead == "err" then
+      let (h, f2) := match implW with | some x => windowMonitors st.h "ack-err" x [] | none => (st.h, [])
+      ({ g := g0, h := h }, { model := "err" ++ suffix g0 [] [] implPH rtt, tags := ["ack:err"], fails := f2 ++ bifMonitor h impl "ack-err" })
     else
       let congested := implCalls.any fun c => c.1 == "C" && (c.2.getD 1 1) == 0
-      let (g, calls) := g0.ack ranges congested implLost implTrk
+      let isNew := g0.isNewly sp ranges
+      let anyNew := g0.out.any isNew
+      let gone := if anyNew then goneOf g0 isNew implTrk implPP else []
+      let (g, calls) := g0.ack ranges congested gone sp implPH
+      let g := { g with ph := implPH }
+      let mLost := if anyNew then (g0.out.filter fun p => !isNew p && p.ae && gone.contains p.key).map (·.key) else []
       -- ghost / glue monitors, from the op and the implementation's outputs only
-      let newlyNonEmpty := st.h.prevTrk.any fun p => covered ranges p
-      let consulted := st.h.ecn && newlyNonEmpty && decide (largest > st.h.gLargestAcked)
+      let newlyNonEmpty := (st.h.prevTrk.any fun k => k.1 == sp && covered ranges k.2) ||
+        (sp == 2 && st.h.prevPP.any fun p => covered ranges p && st.h.prevPH.contains p)
+      let consulted := sp == 2 && st.h.ecn && newlyNonEmpty && decide (largest > st.h.gLargestAcked)
       let ceUp := consulted && decide (ce > st.h.gCE)
       let ceCalls := implCalls.filter fun c => c.1 == "C" && (c.2.getD 1 1) == 0
       let lossCalls := implCalls.filter fun c => c.1 == "C" && (c.2.getD 1 0) != 0
@@ -171,59 +307,126 @@ def stepCore (st : St) (op impl : String) : St × StepOut :=
           if !ceUp then some ("glue_ce_event_pn", "-", s!"ECN-CE congestion event without a CE count increase (ce={ce} last={st.h.gCE} ecn={st.h.ecn})")
           else if pn ≠ largest then some ("glue_ce_event_pn", "-", s!"ECN-CE congestion event reported for packet {pn}, the ACK's largest acknowledged is {largest}")
           else none) ++
-        (lossCalls.filterMap fun c =>
-          let pn := c.2.getD 0 0
-          let b := c.2.getD 1 0
-          if !implLost.contains pn then some ("glue_loss_event_pn", "-", s!"loss event for packet {pn} which was not declared lost ({fmtInts implLost})")
-          else if !(st.h.sent.any fun r => r.pn == pn && r.ae && (r.size : Int) == b) then some ("glue_loss_event_pn", "-", s!"loss event for packet {pn} with {b} bytes: no such ack-eliciting packet was sent")
-          else if st.h.lost.contains pn ∨ st.h.acked.contains pn then some ("glue_loss_event_pn", "-", s!"packet {pn} was already resolved")
-          else none) ++
+        (lossCalls.filterMap (lossCallMonitor st.h implLost)) ++
         (ackCalls.filterMap fun c =>
           let pn := c.2.getD 0 0
           if !covered ranges pn then some ("glue_acked_pn", "-", s!"OnPacketAcked({pn}) outside the ACK ranges")
-          else if !(st.h.sent.any fun r => r.pn == pn && r.ae) then some ("glue_acked_pn", "-", s!"OnPacketAcked({pn}): no such ack-eliciting packet")
-          else if st.h.acked.contains pn ∨ st.h.lost.contains pn then some ("glue_acked_pn", "-", s!"OnPacketAcked({pn}) for a packet already resolved")
-          else none)
-      let trigger := (ceUp && decide (largest > st.h.markPN)) || implLost.any (fun p => decide (p > st.h.markPN))
-      let h := { st.h with acked := st.h.acked ++ (st.h.sent.filter (fun r => covered ranges r.pn && !st.h.acked.contains r.pn)).map (·.pn),
-                           lost := st.h.lost ++ implLost,
-                           gCE := if consulted then ce else st.h.gCE,
-                           gLargestAcked := if newlyNonEmpty then Max.max st.h.gLargestAcked largest else st.h.gLargestAcked }
-      let (h, f2) := match implW with | some x => windowMonitors h "ack" x trigger | none => (h, [])
-      let tags := (if calls.isEmpty then ["ack:nothing-new"] else ["ack:new"]) ++
+          else match st.h.sent.find? (fun r => r.sp == sp && r.pn == pn) with
+            | none => some ("glue_acked_pn", "-", s!"OnPacketAcked({pn}): no such packet")
+            | some r =>
+              if !r.ae ∨ r.probe then some ("glue_acked_pn", "-", s!"OnPacketAcked({pn}) for a packet that was never counted in bytes in flight")
+              else if !r.live then some ("glue_acked_pn", "-", s!"OnPacketAcked({pn}) for a packet already resolved")
+              else none) ++
+        priorMonitor prior implCalls
+      let events := (if ceUp then [largest] else []) ++ ((implLost.filter (reportedLoss st.h)).map (·.2))
+      -- everything inside the ranges of an accepted ACK frame is resolved, and what was reported lost
+      let h := st.h.kill fun r => (r.sp == sp && covered ranges r.pn) || implLost.contains (r.sp, r.pn)
+      let h := { h with gCE := if consulted then ce else st.h.gCE,
+                        gLargestAcked := if newlyNonEmpty && sp == 2 then Max.max st.h.gLargestAcked largest else st.h.gLargestAcked }
+      let w0 := st.h.lastW
+      let (h, f2) := match implW with | some x => windowMonitors h "ack" x events | none => (h, [])
+      let f3 : List Fail := match w0, implW with
+        | some w, some w' =>
+          if w' > w ∧ !limited st.h.mds w prior st.h.prevSS then
+            [("h_growth_only_when_limited", "-", s!"cwnd {w} -> {w'} on an ACK with {prior} bytes really outstanding (slow start: {st.h.prevSS}, mds {st.h.mds}): not window-limited")]
+          else []
+        | _, _ => []
+      let tags := (if calls.isEmpty then ["ack:nothing-new"] else ["ack:new"]) ++ ["ack:" ++ lvl] ++
         (if congested then [if largest ≤ st.g.s.lastCutback then "ack:ce-same-window" else "ack:ce-cut"] else []) ++
-        (if implLost.isEmpty then [] else [if implLost.all (fun p => decide (p ≤ st.g.s.lastCutback)) then "ack:loss-same-window" else "ack:loss-cut"]) ++
+        (if mLost.isEmpty then [] else [if mLost.all (fun p => decide (p.2 ≤ st.g.s.lastCutback)) then "ack:loss-same-window" else "ack:loss-cut"]) ++
+        (if g0.out.any (fun p => p.mtu && gone.contains p.key) then ["ack:mtuprobe-lost"] else []) ++
+        (if g0.out.any (fun p => p.probe && isNew p) then ["ack:pathprobe-acked"] else []) ++
         (if calls.contains Call.exitSS then ["ack:exitss"] else [])
-      ({ g := g, h := h }, { model := "ok" ++ suffix g calls implLost implTrk rtt, tags := tags, fails := f1 ++ f2 })
+      let f4 := oneReductionMonitor st.h "ACK frame" w0 implW sp events
+      ({ g := g, h := h }, { model := "ok" ++ suffix g calls mLost implPH rtt, tags := tags, fails := f1 ++ f2 ++ f3 ++ f4 ++ bifMonitor h impl "ack" })
   | ["timeout", _t] =>
-    if implHead != "ok" then
-      let (h, f2) := match implW with | some x => windowMonitors st.h "timeout-skip" x false | none => (st.h, [])
-      ({ g := g0, h := h }, { model := implHead ++ suffix g0 [] [] implTrk rtt, tags := ["timeout:" ++ implHead], fails := f2 })
-    else
-      let (g, calls) := g0.timeout implLost implTrk
-      let f1 : List Fail := implCalls.filterMap fun c =>
-        let pn := c.2.getD 0 0
+    if implHead != "ok" then skip "timeout" else
+      let gone := goneOf g0 (fun _ => false) implTrk implPP
+      let (g, calls) := g0.timeout gone implPH
+      let g := { g with ph := implPH }
+      let mLost := (g0.out.filter fun p => p.ae && gone.contains p.key).map (·.key)
+      let f1 : List Fail := (implCalls.filterMap fun c =>
         let b := c.2.getD 1 0
         if c.1 != "C" then some ("glue_timeout_calls", "-", s!"unexpected call {c.1} from the loss timer")
         else if b == 0 then some ("glue_ce_event_pn", "-", "ECN-CE congestion event from the loss timer")
-        else if !implLost.contains pn then some ("glue_loss_event_pn", "-", s!"loss event for packet {pn} which was not declared lost ({fmtInts implLost})")
-        else if !(st.h.sent.any fun r => r.pn == pn && r.ae && (r.size : Int) == b) then some ("glue_loss_event_pn", "-", s!"loss event for packet {pn} with {b} bytes: no such ack-eliciting packet was sent")
-        else none
-      let trigger := implLost.any (fun p => decide (p > st.h.markPN))
-      let h := { st.h with lost := st.h.lost ++ implLost }
-      let (h, f2) := match implW with | some x => windowMonitors h "timeout" x trigger | none => (h, [])
-      let tags := [(if implLost.isEmpty then "timeout:pto" else "timeout:loss")]
-      ({ g := g, h := h }, { model := "ok" ++ suffix g calls implLost implTrk rtt, tags := tags, fails := f1 ++ f2 })
+        else lossCallMonitor st.h implLost c) ++ priorMonitor prior implCalls
+      let events := (implLost.filter (reportedLoss st.h)).map (·.2)
+      let h := st.h.kill fun r => implLost.contains (r.sp, r.pn)
+      let (h, f2) := match implW with | some x => windowMonitors h "timeout" x events | none => (h, [])
+      let tags := [(if mLost.isEmpty then "timeout:pto" else "timeout:loss")] ++
+        (if g0.out.any (fun p => p.probe && gone.contains p.key) then ["timeout:pathprobe-lost"] else [])
+      let evSp := ((implLost.filter (reportedLoss st.h)).head?.map (·.1)).getD 2
+      let f4 := oneReductionMonitor st.h "loss-timer expiry" st.h.lastW implW evSp events
+      ({ g := g, h := h }, { model := "ok" ++ suffix g calls mLost implPH rtt, tags := tags, fails := f1 ++ f2 ++ f4 ++ bifMonitor h impl "timeout" })
   | ["mds", m] =>
     let m := natOf m
     let calls := [Call.mds m]
     let g := g0.apply calls
     let h := if m ≥ st.h.mds then { st.h with mds := m } else st.h
-    let (h, f2) := match implW with | some x => windowMonitors h "mds" x false | none => (h, [])
-    ({ g := g, h := h }, { model := (if m < st.g.s.mds then "PANIC" else "ok") ++ suffix g calls [] implTrk rtt, tags := ["mds"], fails := f2 })
+    let (h, f2) := match implW with | some x => windowMonitors h "mds" x [] | none => (h, [])
+    ({ g := g, h := h }, { model := (if m < st.g.s.mds then "PANIC" else "ok") ++ suffix g calls [] implPH rtt, tags := ["mds"], fails := f2 ++ bifMonitor h impl "mds" })
+  | ["migrate", _t, m] =>
+    if implHead == "skip" then skip "migrate" else
+    let m := natOf m
+    let g := g0.migrate m rtt implPP
+    let mLost := (g0.out.filter fun p => p.sp == 2 && !p.probe && p.ae).map (·.key)
+    -- the old path is written off: nothing sent on it is outstanding any more; a fresh controller
+    let h := st.h.kill fun r => r.sp == 2
+    let h := { h with mds := m, lastW := none, markPN := -1, lastAE := -1, lastAESp := 2 }
+    let f1 : List Fail := if implCalls.isEmpty then [] else
+      [("glue_migrate_calls", "-", "the path migration made calls on the old or new controller: " ++ (fieldOf impl "calls=").getD "-")]
+    let (h, f2) := match implW with | some x => windowMonitors h "migrate" x [] | none => (h, [])
+    let tags := ["migrate"] ++ (if g0.out.any (fun p => p.mtu) then ["migrate:mtuprobe-in-flight"] else []) ++
+      (if g0.out.any (fun p => p.probe) then ["migrate:pathprobe-outstanding"] else []) ++
+      (if g0.bytesInFlight > 0 then ["migrate:in-flight"] else [])
+    ({ g := g, h := h }, { model := "ok" ++ suffix g [] mLost [] rtt, tags := tags, fails := f1 ++ f2 ++ bifMonitor h impl "migrate" })
+  | ["drop", lvl, _t] =>
+    if implHead == "skip" then skip "drop" else
+    let sp := (spOfLetter lvl).getD 2
+    let g := if lvl == "z" then g0.dropZeroRTT else g0.dropSpace sp
+    let h := st.h.kill fun r => if lvl == "z" then r.sp == 2 && r.zero else r.sp == sp
+    let f1 : List Fail := if implCalls.isEmpty then [] else
+      [("glue_drop_calls", "-", "dropping packets made calls on the controller: " ++ (fieldOf impl "calls=").getD "-")]
+    let (h, f2) := match implW with | some x => windowMonitors h "drop" x [] | none => (h, [])
+    let tags := ["drop:" ++ lvl] ++ (if g.bytesInFlight < g0.bytesInFlight then ["drop:in-flight"] else [])
+    ({ g := g, h := h }, { model := "ok" ++ suffix g [] [] implPH rtt, tags := tags, fails := f1 ++ f2 ++ bifMonitor h impl "drop" })
+  | ["retry", _t] =>
+    if implHead == "skip" then skip "retry" else
+    let g := g0.retry
+    let mLost := (g0.out.filter fun p => p.sp != 1 && !p.probe && p.ae).map (·.key)
+    let h := st.h.kill fun r => r.sp != 1
+    let h := { h with gLargestAcked := -1 }
+    let f1 : List Fail := if implCalls.isEmpty then [] else
+      [("glue_retry_calls", "-", "ResetForRetry made calls on the controller: " ++ (fieldOf impl "calls=").getD "-")]
+    let (h, f2) := match implW with | some x => windowMonitors h "retry" x [] | none => (h, [])
+    let tags := ["retry"] ++ (if g0.bytesInFlight > 0 then ["retry:in-flight"] else [])
+    ({ g := g, h := h }, { model := "ok" ++ suffix g [] mLost [] rtt, tags := tags, fails := f1 ++ f2 ++ bifMonitor h impl "retry" })
+  | ["qprobe", lvl] =>
+    if implHead == "skip" then skip "qprobe" else
+    let sp := (spOfLetter lvl).getD 2
+    let first := g0.out.find? (fun p => p.sp == sp && p.outstanding)
+    let (g, b) := g0.queueProbe sp
+    let mLost := match first with | some q => [q.key] | none => []
+    let h := st.h.kill fun r => implLost.contains (r.sp, r.pn)
+    let f1 : List Fail := if implCalls.isEmpty then [] else
+      [("glue_qprobe_calls", "-", "QueueProbePacket made calls on the controller: " ++ (fieldOf impl "calls=").getD "-")]
+    let (h, f2) := match implW with | some x => windowMonitors h "qprobe" x [] | none => (h, [])
+    ({ g := g, h := h }, { model := b2s b ++ suffix g [] mLost implPH rtt, tags := ["qprobe:" ++ b2s b], fails := f1 ++ f2 ++ bifMonitor h impl "qprobe" })
+  | ["mode", t] =>
+    let t := intOf t
+    let can := g0.s.canSend g0.bytesInFlight
+    let pace := if g0.s.hasPacingBudget t then "any" else "pacing"
+    -- the probe / amplification / tracked-packet state is environment; the congestion decision is predicted
+    let modelHead :=
+      if implHead == "any" ∨ implHead == "pacing" ∨ implHead == "ack" then (if can then pace else "ack") else implHead
+    let f1 : List Fail := match st.h.lastW with
+      | some w0 => if (implHead == "any" ∨ implHead == "pacing") ∧ prior ≥ w0 then
+          [("h_send_gating", "-", s!"SendMode={implHead} with {prior} bytes really outstanding and a window of {w0}")] else []
+      | none => []
+    let (h, f2) := match implW with | some x => windowMonitors st.h "mode" x [] | none => (st.h, [])
+    ({ g := g0, h := h }, { model := modelHead ++ suffix g0 [] [] implPH rtt, tags := ["mode:" ++ implHead], fails := f1 ++ f2 ++ bifMonitor h impl "mode" })
   | _ => (st, { model := "bad-op" })
 
-def step (st : St) (op impl : String) : St × StepOut :=
-  setTrk (stepCore st op impl) (parseInts ((fieldOf impl "trk=").getD "-"))
+def step (st : St) (op impl : String) : St × StepOut := setPrev (stepCore st op impl) impl
 
 def main : IO Unit := run { init := ({} : St), step := step }
